@@ -149,6 +149,9 @@ pub fn take_log() -> Vec<String> {
 
 pub type PropFn = fn(&mut Ctx);
 
+/// wall-clock limit of a single run (seconds)
+pub static RUN_TIMEOUT_SECS: std::sync::atomic::AtomicU64 = std::sync::atomic::AtomicU64::new(900);
+
 fn clean_dir(dir: &std::path::Path) {
     if let Ok(rd) = std::fs::read_dir(dir) {
         for e in rd.flatten() {
@@ -176,10 +179,12 @@ pub fn run_one(prop: &str, f: PropFn, tier: Tier, sandbox: &std::path::Path, tap
     let sys_state = Box::new(sys::SysState::new(&sandbox_s, tape_seed));
     let prop_s = prop.to_string();
     let sandbox_p = sandbox.to_path_buf();
+    let (tx, rx) = std::sync::mpsc::channel::<RunResult>();
     let handle = std::thread::Builder::new()
         .name("run".into())
         .stack_size(16 << 20)
         .spawn(move || {
+            let result = (move || {
             // first thing on the thread: from here on getrandom() is the tape's
             sys::begin(sys_state);
             let mut sim = Sim::new(tape);
@@ -233,9 +238,15 @@ pub fn run_one(prop: &str, f: PropFn, tier: Tier, sandbox: &std::path::Path, tap
                 notes: ctx.notes,
                 harness_error,
             }
+            })();
+            let _ = tx.send(result);
         })
         .expect("spawn run thread");
-    match handle.join() {
+    // a run normally takes milliseconds. One that does not come back (a blocking closure that
+    // waits for the async side -- which the run-to-completion pool cannot simulate -- or a real
+    // deadlock) is abandoned: its thread stays parked, the batch goes on in fresh threads.
+    let timeout = std::time::Duration::from_secs(RUN_TIMEOUT_SECS.load(std::sync::atomic::Ordering::Relaxed));
+    match rx.recv_timeout(timeout).map_err(|_| ()).and_then(|r| handle.join().map(|_| r).map_err(|_| ())) {
         Ok(r) => r,
         Err(_) => RunResult {
             verdict: Verdict::default(),
@@ -249,7 +260,7 @@ pub fn run_one(prop: &str, f: PropFn, tier: Tier, sandbox: &std::path::Path, tap
             counters: BTreeMap::new(),
             events: Vec::new(),
             notes: Vec::new(),
-            harness_error: Some("run thread died".into()),
+            harness_error: Some("run did not finish within the per-run timeout (hung: a blocking task waiting for the async side cannot be simulated) or its thread died".into()),
         },
     }
 }
